@@ -2,6 +2,7 @@ import MV.Driver.Stream
 import MV.Driver.Graph
 import MV.Driver.MWU
 import MV.Driver.Discrete
+import MV.Driver.Hist
 open MV
 
 /-- ops whose handler models panics itself -/
@@ -13,6 +14,8 @@ def dispatchOp (ins outs : List J) : Verdict :=
   | .atom "ud" :: rest => MWU.handleUD rest outs
   | .atom "mwu" :: rest => MWU.handleMWU rest outs
   | .atom "bin" :: rest => Discrete.handleBin rest outs
+  | .atom "lh" :: rest => Hist.handleLin rest outs
+  | .atom "gh" :: rest => Hist.handleLog rest outs
   | .atom "hyp" :: rest => Discrete.handleHyp rest outs
   | .atom op :: rest =>
     if Graph.ops.contains op then Graph.handle op rest outs
